@@ -144,6 +144,13 @@ func (h *hookCol) Grow(idx uint32) {
 	}
 }
 
+func (h *hookCol) Snapshot(chunk commit.Chunk, dst *commit.Buffer) {
+	h.Column.Snapshot(chunk, dst)
+	if h.s != nil {
+		h.s.yield("g:snap")
+	}
+}
+
 func (h *hookCol) Apply(chunk commit.Chunk, r *commit.Reader) {
 	h.Column.Apply(chunk, r)
 	if h.s != nil {
@@ -602,6 +609,49 @@ func scenarioSnapshotOpt(name string, nWriters, txns int, rowsPerWriter [][]uint
 	}}
 }
 
+// scenarioIndexBackfill: CreateIndex beside a writer of the indexed column (C03 under concurrency, D24): the
+// back-fill is parked after it has read a chunk of the column (hook column) and before it applies it
+func scenarioIndexBackfill(name string) scenario {
+	return scenario{name: name, build: func(s *scheduler) (func(*scheduler) (string, string, string), func()) {
+		hc := &hookCol{Column: column.ForInt64()}
+		c := newSchedCollHooked(nil, hc)
+		column.VerifSetYield(nil)
+		rows := []uint32{0, 1, 16384}
+		insertMarkers(c, rows...)
+		for _, r := range rows {
+			c.QueryAt(r, func(row column.Row) error { row.SetAny("h", int64(0)); return nil })
+		}
+		column.VerifSetYield(s.yield)
+		hc.s = s
+		s.spawn("indexer", func() {
+			c.CreateIndex("ix", "h", func(r column.Reader) bool { return r.Int() > 5 })
+		})
+		s.spawn("writer", func() {
+			c.QueryAt(0, func(row column.Row) error { row.SetAny("h", int64(10)); return nil })
+			c.QueryAt(16384, func(row column.Row) error { row.SetAny("h", int64(20)); return nil })
+		})
+		check := func(s *scheduler) (string, string, string) {
+			column.VerifSetYield(nil)
+			hc.s = nil
+			var got, want []uint32
+			c.Query(func(txn *column.Txn) error { return txn.With("ix").Range(func(idx uint32) { got = append(got, idx) }) })
+			for _, r := range rows {
+				c.QueryAt(r, func(row column.Row) error {
+					if v, ok := row.Any("h"); ok && v.(int64) > 5 {
+						want = append(want, r)
+					}
+					return nil
+				})
+			}
+			if fmt.Sprint(got) != fmt.Sprint(want) {
+				return "index", fmt.Sprintf("all threads finished: index h>5 selects rows %v but the rows whose value satisfies the rule are %v", got, want), ""
+			}
+			return "", "", ""
+		}
+		return check, func() { c.Close() }
+	}}
+}
+
 // scenarioInserters: concurrent inserts / deletes (C11), with an observer (C02 / finding D17)
 func scenarioInserters(name string, nIns, perThread int, withDeleter bool) scenario {
 	return scenario{name: name, build: func(s *scheduler) (func(*scheduler) (string, string, string), func()) {
@@ -752,6 +802,7 @@ func scenarioKeyRace(name string, upsert bool) scenario {
 
 var schedClasses = map[string][]string{
 	"C02": {"inflight"},
+	"C03": {"index"},
 	"C06": {"replica"},
 	"C08": {"cut", "snapfail"},
 	"C09": {"lost", "chain"},
@@ -789,11 +840,13 @@ func scenariosFor(prop string, tier string) []scenario {
 			scenarioSnapshotOpt("snap-growth", 0, 0, nil, false, true))
 	case "C11", "C02":
 		out = append(out, scenarioInserters("2ins", 2, 2, false), scenarioInserters("3ins", 3, 1, false), scenarioInserters("2ins-deleter", 2, 2, true))
+	case "C03":
+		out = append(out, scenarioIndexBackfill("index-backfill"))
 	case "C12":
 		out = append(out, scenarioKeyRace("inskey-race", false), scenarioKeyRace("upskey-race", true))
 	case "C18":
 		out = append(out, scenarioWriters("2w-reader", "log", two, true), scenarioWriters("2w-multichunk2-log", "log", multi2, true),
-			scenarioSnapshot("snap-2w-2chunks", 2, 1, [][]uint32{{0, b1}, {1, b1 + 1}}), scenarioInserters("2ins-deleter", 2, 1, true), scenarioKeyRace("upskey-race", true))
+			scenarioSnapshot("snap-2w-2chunks", 2, 1, [][]uint32{{0, b1}, {1, b1 + 1}}), scenarioInserters("2ins-deleter", 2, 1, true), scenarioKeyRace("upskey-race", true), scenarioIndexBackfill("index-backfill"))
 	}
 	return out
 }
